@@ -14,6 +14,7 @@ def mon_closed(tr, sc):
     out = []
     closed_at = None
     rs_closed = False
+    disc_inside = False
     for i, (op, lines) in enumerate(tr):
         f = op.split()
         if f and f[0] == "adopt":
@@ -31,6 +32,15 @@ def mon_closed(tr, sc):
                     rs_closed = True
                 if l.startswith("blocked "):
                     out.append(("after-close:blocks", "a call blocks after Close: %s" % l))
+        # Close never waits for other goroutines' I/O (it interrupts them); it may only queue behind a Disconnect that is inside
+        if f and f[0] == "disconnect" and any(l == "blocked disconnect" for l in lines):
+            disc_inside = True
+        if any(l.startswith(("ret disconnect", "disconnect ")) for l in lines):
+            disc_inside = disc_inside and not any(l.startswith("ret disconnect") for l in lines)
+        if f and f[0] == "close" and any(l == "blocked close" for l in lines) and not disc_inside \
+                and not any(l.startswith(("unsupported", "dead after")) for l in lines):
+            out.append(("close-blocks", "Close does not return although no Disconnect is in progress: every other goroutine is at rest "
+                        "(a stalled write or dial is to be interrupted by Close, not waited for)"))
         for l in lines:
             if l == "close ok" or l == "ret close ok" or (l.startswith("disconnect ") and closed_at is None) or l.startswith("ret disconnect"):
                 if closed_at is None:
